@@ -13,9 +13,40 @@ import (
 // specified. A max of 0 or less indicates there is no maximum.
 func (x Expr) Locate(data any, max int) (locs []Expr) {
 	if 0 < len(x) {
+		x = x.rooted(data)
 		locs = x[0].locate(nil, data, x[1:], max)
 	}
 	return
+}
+
+// rootedFilter is a Filter that knows the document so that $ in the script is
+// evaluated against the document, as Get does, and not against nothing.
+type rootedFilter struct {
+	*Filter
+	root any
+}
+
+func (f rootedFilter) locate(pp Expr, data any, rest Expr, max int) []Expr {
+	return f.Filter.locateWithRoot(pp, data, rest, max, f.root)
+}
+
+// rooted returns x with root bound to the filters in x. If there are no
+// filters x itself is returned.
+func (x Expr) rooted(root any) Expr {
+	var rx Expr
+	for i, f := range x {
+		if tf, ok := f.(*Filter); ok {
+			if rx == nil {
+				rx = make(Expr, len(x))
+				copy(rx, x)
+			}
+			rx[i] = rootedFilter{Filter: tf, root: root}
+		}
+	}
+	if rx == nil {
+		return x
+	}
+	return rx
 }
 
 func locateNthChildHas(pp Expr, f Frag, v any, rest Expr, max int) (locs []Expr) {
